@@ -5,7 +5,7 @@ cells, written in even phases (PUBLISH, own cell only, fresh immutable chains) a
 odd phases (TAKE). The model therefore runs thread after thread, phase after phase."""
 M = 1000000007
 OPS = {"NEW": 0, "LINK": 1, "UNLINK": 2, "DROP": 3, "CHURN": 4, "SUM": 5, "GCFULL": 6, "GCMINOR": 7, "YIELD": 8, "PUBLISH": 9,
-       "TAKE": 10, "LINKF": 11, "LOCKED_ALLOC": 12, "TEXT": 13, "SUMF": 14, "FILEIO": 15, "SNAP": 16}
+       "TAKE": 10, "LINKF": 11, "LOCKED_ALLOC": 12, "TEXT": 13, "SUMF": 14, "FILEIO": 15, "SNAP": 16, "SHSTORE": 17}
 
 
 class Node:
@@ -20,6 +20,7 @@ class Local:
         self.tid = tid
         self.slots = [None] * nslots
         self.foreign = [None] * 4
+        self.board = [None] * 4
         self.next_id = tid * 1000000 + 1
         self.epoch = 0
         self.hash = tid
@@ -134,11 +135,15 @@ def expected(script):
                         d.tlen = 2 * y
                 elif op == 14:
                     l.hash = (l.hash * 11 + l.checksum(l.foreign[x % 4])) % M
+                elif op == 17:
+                    l.board[x % 4] = l.new_node(y)
                 elif op == 15:
                     ssum = sum(((i * 7 + tid + y) % 251) * (i % 13 + 1) for i in range(x))
                     l.hash = (l.hash * 13 + ssum + x) % M
             for i in range(nslots):
                 l.hash = (l.hash * 5 + l.checksum(l.slots[i])) % M
+            for i in range(4):
+                l.hash = (l.hash * 7 + l.checksum(l.board[i])) % M
         cells = new_cells
     out = ["t %d %d %d" % (tid, locs[tid].hash, locs[tid].next_id) for tid in range(t)]
     out.append("barrier %d" % phases)
@@ -179,6 +184,8 @@ def generate(rng):
                     ops.append((13, rng.randrange(nslots), rng.choice([0, 1, 20, 90]), 0))
                 elif r < 0.94:
                     ops.append((15, rng.choice([1, 64, 1000, 4096]), rng.getrandbits(40), 0))
+                elif r < 0.97:
+                    ops.append((17, rng.randrange(4), rng.choice([0, 1, 3, 16]), 0))
                 else:
                     if p % 2 == 0:
                         ops.append((9, rng.choice([0, 1, 3, 10]), rng.choice([0, 2, 8]), 0))
@@ -188,8 +195,18 @@ def generate(rng):
                         if rng.random() < 0.5:
                             ops.append((14, rng.randrange(4), 0, 0))
             code[tid][p] = ops
+    if rng.random() < 0.35:
+        # board bursts: in some phase one thread forces a full collection (everything is
+        # promoted), then ALL threads store fresh nodes into the shared board at the start of
+        # the next phase, followed by minor collections
+        for _ in range(rng.randint(1, 2)):
+            p = rng.randrange(phases)
+            code[rng.randrange(t)][p].append((6, 0, 0, 0))
+            if p + 1 < phases:
+                for tid in range(t):
+                    burst = [(17, rng.randrange(4), rng.choice([0, 1, 3]), 0) for _ in range(rng.randint(1, 3))]
+                    code[tid][p + 1] = burst + code[tid][p + 1] + [(7, 0, 0, 0)]
     return flatten(t, phases, nslots, code)
-
 
 
 def add_snapshots(script, rng):
